@@ -1720,3 +1720,252 @@ func nameOnlyPredicate(c *core.Ctx, info *types.Info, call *ast.CallExpr, allowe
 	})
 	return ok
 }
+
+// ---------------------------------------------------------------------------------------------------------------
+// I4: the import depth limit admits exactly MaxImportRecursionDepth nesting levels. The three pieces — the value the
+// root call starts with, the step of the recursive call, the test that rejects — are read off the code and evaluated
+// for nesting levels 0, 1, 2, …: whichever way the counter runs, the first rejected level is MaxImportRecursionDepth.
+// ---------------------------------------------------------------------------------------------------------------
+func ruleDepthLimitAdmitsExactlyMax(c *core.Ctx) {
+	const rule = "I4"
+	c.Rule(rule, "packaging.collectPackages: start value (at the outside call), step (at the recursive call) and rejecting test of the depth counter, evaluated for nesting levels 0,1,2,…, admit levels 0 … MaxImportRecursionDepth-1 and reject level MaxImportRecursionDepth — counting up or down", 1)
+	p := c.Pkg("pkg/packaging")
+	f, d, _ := c.Func("pkg/packaging", "collectPackages")
+	if p == nil || d == nil || f == nil {
+		c.Undecided(rule, "anchor/pkg/packaging.collectPackages", 0, "anchor not found")
+		return
+	}
+	info := p.TypesInfo
+	mx, _ := p.Types.Scope().Lookup("MaxImportRecursionDepth").(*types.Const)
+	if mx == nil {
+		c.Undecided(rule, "anchor/MaxImportRecursionDepth", d.Pos(), "constant not found")
+		return
+	}
+	max, _ := constant.Int64Val(constant.ToInt(mx.Val()))
+	// the integer parameter that the recursive call passes on as `param ± k`
+	params := paramObjs(info, d)
+	var depth types.Object
+	depthIdx := -1
+	var step int64
+	ast.Inspect(d.Body, func(m ast.Node) bool {
+		ce, ok := m.(*ast.CallExpr)
+		if !ok || core.Callee(info, ce) == nil || core.Callee(info, ce).Origin() != f {
+			return true
+		}
+		for i, a := range ce.Args {
+			be, ok := ast.Unparen(a).(*ast.BinaryExpr)
+			if !ok || (be.Op != token.ADD && be.Op != token.SUB) || i >= len(params) {
+				continue
+			}
+			if identObj(info, be.X) == params[i] && params[i] != nil {
+				if tv, ok := info.Types[be.Y]; ok && tv.Value != nil {
+					k, _ := constant.Int64Val(constant.ToInt(tv.Value))
+					if be.Op == token.SUB {
+						k = -k
+					}
+					depth, depthIdx, step = params[i], i, k
+				}
+			}
+		}
+		return true
+	})
+	if depth == nil || step == 0 {
+		c.Undecided(rule, "collectPackages/step", d.Pos(), "no integer parameter that the recursive call passes on as `parameter ± constant` was found")
+		return
+	}
+	// start values at the calls from outside
+	var starts []int64
+	startKnown := true
+	for _, od := range c.AllDecls() {
+		if od == d || c.DeclPkg(od) != p || od.Body == nil {
+			continue
+		}
+		ast.Inspect(od.Body, func(m ast.Node) bool {
+			ce, ok := m.(*ast.CallExpr)
+			if !ok || core.Callee(info, ce) == nil || core.Callee(info, ce).Origin() != f || depthIdx >= len(ce.Args) {
+				return true
+			}
+			if tv, ok := info.Types[ce.Args[depthIdx]]; ok && tv.Value != nil {
+				v, _ := constant.Int64Val(constant.ToInt(tv.Value))
+				starts = append(starts, v)
+			} else {
+				startKnown = false
+			}
+			return true
+		})
+	}
+	if len(starts) == 0 || !startKnown {
+		c.Undecided(rule, "collectPackages/start value", d.Pos(), "the value the counter starts with at the outside call is not a constant")
+		return
+	}
+	// the rejecting test: a leaving `if` whose condition compares the parameter with a constant
+	type test struct {
+		op  token.Token
+		rhs int64
+		pos token.Pos
+	}
+	var tests []test
+	ast.Inspect(d.Body, func(m ast.Node) bool {
+		is, ok := m.(*ast.IfStmt)
+		if !ok || !bodyLeaves(is.Body) {
+			return true
+		}
+		be, ok := ast.Unparen(is.Cond).(*ast.BinaryExpr)
+		if !ok {
+			return true
+		}
+		x, y, op := be.X, be.Y, be.Op
+		if identObj(info, y) == depth {
+			x, y = y, x
+			op = map[token.Token]token.Token{token.LSS: token.GTR, token.LEQ: token.GEQ, token.GTR: token.LSS, token.GEQ: token.LEQ, token.EQL: token.EQL, token.NEQ: token.NEQ}[op]
+		}
+		if identObj(info, x) != depth {
+			return true
+		}
+		if tv, ok := info.Types[y]; ok && tv.Value != nil {
+			v, _ := constant.Int64Val(constant.ToInt(tv.Value))
+			tests = append(tests, test{op, v, is.Pos()})
+		}
+		return true
+	})
+	if len(tests) == 0 {
+		c.Undecided(rule, "collectPackages/rejecting test", d.Pos(), "no leaving `if` that compares the depth counter with a constant was found")
+		return
+	}
+	// the test applies to the package the call is about: it stands among the top-level statements, not inside the loop
+	// over the imports (there it would let a package at the last level through whenever it imports nothing)
+	for _, t := range tests {
+		top := false
+		for _, st := range d.Body.List {
+			if st.Pos() == t.pos {
+				top = true
+			}
+		}
+		c.Check(top, rule, "collectPackages/rejecting test applies to every package", t.pos, "the test is a top-level statement of collectPackages",
+			"the depth test stands inside a loop or a branch: a package without imports is never tested, so a chain one level deeper than MaxImportRecursionDepth is accepted when its last package imports nothing")
+	}
+	rejects := func(v int64) bool {
+		for _, t := range tests {
+			switch t.op {
+			case token.LSS:
+				if v < t.rhs {
+					return true
+				}
+			case token.LEQ:
+				if v <= t.rhs {
+					return true
+				}
+			case token.GTR:
+				if v > t.rhs {
+					return true
+				}
+			case token.GEQ:
+				if v >= t.rhs {
+					return true
+				}
+			case token.EQL:
+				if v == t.rhs {
+					return true
+				}
+			}
+		}
+		return false
+	}
+	for _, s0 := range starts {
+		first := int64(-1)
+		for k := int64(0); k <= max+5; k++ {
+			if rejects(s0 + k*step) {
+				first = k
+				break
+			}
+		}
+		c.Check(first == max, rule, fmt.Sprintf("collectPackages/first rejected nesting level (start %d, step %+d)", s0, step), tests[0].pos,
+			fmt.Sprintf("levels 0 … %d are admitted, level %d is rejected", max-1, max),
+			fmt.Sprintf("the first nesting level the limit rejects is %d, not MaxImportRecursionDepth = %d: an import chain one level %s than the documented limit is %s", first, max,
+				map[bool]string{true: "deeper", false: "shallower"}[first > max || first < 0], map[bool]string{true: "accepted and generated from", false: "rejected"}[first > max || first < 0]))
+	}
+}
+
+// ---------------------------------------------------------------------------------------------------------------
+// P6c: a model file may hold several YAML documents; the decoder of pkg/dsl is called until it reports the end.
+// ---------------------------------------------------------------------------------------------------------------
+func ruleModelDecoderRunsToTheEnd(c *core.Ctx) {
+	const rule = "P6c"
+	c.Rule(rule, "pkg/dsl: every (*yaml.Decoder).Decode of a model file stands inside a loop (a model file may hold several `---` documents: decoding once drops everything behind the first)", 1)
+	p := c.Pkg("pkg/dsl")
+	if p == nil {
+		c.Undecided(rule, "anchor/pkg/dsl", 0, "package not found")
+		return
+	}
+	info := p.TypesInfo
+	n := 0
+	for _, d := range c.AllDecls() {
+		if c.DeclPkg(d) != p || d.Body == nil || c.IsTestFile(d.Pos()) {
+			continue
+		}
+		var loops []ast.Node
+		ast.Inspect(d.Body, func(m ast.Node) bool {
+			switch m.(type) {
+			case *ast.ForStmt, *ast.RangeStmt:
+				loops = append(loops, m)
+			}
+			return true
+		})
+		ast.Inspect(d.Body, func(m ast.Node) bool {
+			ce, ok := m.(*ast.CallExpr)
+			if !ok {
+				return true
+			}
+			f := core.Callee(info, ce)
+			if f == nil || core.FullName(f) != "(gopkg.in/yaml.v3.Decoder).Decode" {
+				return true
+			}
+			n++
+			in := false
+			for _, l := range loops {
+				// a loop whose own statements contain the call — not merely a loop over files around a single Decode:
+				// the loop must be condition-less or conditioned on the decoding (not a range over a collection)
+				if fs, ok := l.(*ast.ForStmt); ok && fs.Pos() <= ce.Pos() && ce.End() <= fs.End() {
+					in = true
+				}
+			}
+			// the call may sit in a helper that is itself called from such a loop with the same decoder
+			if !in {
+				self, _ := info.Defs[d.Name].(*types.Func)
+				for _, od := range c.AllDecls() {
+					if c.DeclPkg(od) != p || od.Body == nil || self == nil {
+						continue
+					}
+					ast.Inspect(od.Body, func(k ast.Node) bool {
+						fs, ok := k.(*ast.ForStmt)
+						if !ok {
+							return true
+						}
+						ast.Inspect(fs.Body, func(q ast.Node) bool {
+							if c2, ok := q.(*ast.CallExpr); ok {
+								if g := core.Callee(info, c2); g != nil && g.Origin() == self {
+									in = true
+								}
+							}
+							return true
+						})
+						return true
+					})
+				}
+			}
+			c.Check(in, rule, c.FuncName(d)+"/Decode", ce.Pos(), "decoded in a `for` loop until the decoder reports the end",
+				"the model file is decoded once: every YAML document after the first `---` is silently dropped, so definitions (and rule violations) placed there are never parsed or validated")
+			return true
+		})
+	}
+	if n == 0 {
+		c.Undecided(rule, "anchor/yaml Decode calls in pkg/dsl", 0, "none found")
+	}
+}
+
+func init() {
+	reg("C18", ruleDepthLimitAdmitsExactlyMax)
+	reg("C11", ruleDepthLimitAdmitsExactlyMax, ruleModelDecoderRunsToTheEnd)
+	reg("C09", ruleModelDecoderRunsToTheEnd)
+	reg("C13", ruleModelDecoderRunsToTheEnd)
+}
